@@ -1056,6 +1056,7 @@ static void designation(Token **rest, Token *tok, Initializer *init) {
   if (equal(tok, ".") && init->ty->kind == TY_UNION) {
     Member *mem = struct_designator(&tok, tok, init->ty);
     init->mem = mem;
+    init->expr = NULL;
     designation(rest, tok, init->children[mem->idx]);
     return;
   }
@@ -1271,6 +1272,21 @@ static void initializer2(Token **rest, Token *tok, Initializer *init) {
   }
 
   if (init->ty->kind == TY_UNION) {
+    init->expr = NULL;
+
+    // Like a struct, a union can be initialized with another union
+    // of the same type, e.g. `union U x = y;`. The whole object is
+    // copied in that case. A union of another type initializes the
+    // first member as usual.
+    if (!equal(tok, "{")) {
+      Node *expr = assign(rest, tok);
+      add_type(expr);
+      if (expr->ty->kind == TY_UNION && expr->ty->members == init->ty->members) {
+        init->expr = expr;
+        return;
+      }
+    }
+
     union_initializer(rest, tok, init);
     return;
   }
@@ -1359,7 +1375,7 @@ static Node *create_lvar_init(Initializer *init, Type *ty, InitDesg *desg, Token
     return node;
   }
 
-  if (ty->kind == TY_UNION) {
+  if (ty->kind == TY_UNION && !init->expr) {
     Member *mem = init->mem ? init->mem : ty->members;
     InitDesg desg2 = {desg, 0, mem};
     return create_lvar_init(init->children[mem->idx], mem->ty, &desg2, tok);
@@ -1453,6 +1469,8 @@ write_gvar_data(Relocation *cur, Initializer *init, Type *ty, char *buf, int off
   }
 
   if (ty->kind == TY_UNION) {
+    if (init->expr)
+      error_tok(init->expr->tok, "initializer element is not constant");
     if (!init->mem)
       return cur;
     return write_gvar_data(cur, init->children[init->mem->idx],
